@@ -349,6 +349,39 @@ func (w *World) atomsInto(fi *FuncInfo, fd *funcDefs, e ast.Expr, a *Atoms, seen
 			// a new function: looked through (results; parameters are bound to call-site
 			// arguments when reached), not recorded as a call
 			w.atomsOfNewCall(w.Funcs[name], -1, a, depth)
+		} else if tgt := w.Funcs[name]; w.deep.on && tgt != nil && tgt.Decl.Body != nil && !w.deep.busy[name] && w.deep.depth < 2 {
+			// deep mode (decision fingerprints): what a gleece predicate returns and what it
+			// branches on are what the caller decides on; the predicate's own name and shape
+			// do not matter
+			w.deep.busy[name] = true
+			w.deep.depth++
+			sub := newAstAtoms()
+			tfd := w.defsOf(tgt)
+			for _, e := range resultExprs(tgt, -1) {
+				w.atomsInto(tgt, tfd, e, sub, map[ast.Node]bool{}, depth+5)
+			}
+			for _, ce := range branchConds(tgt) {
+				w.atomsInto(tgt, tfd, ce, sub, map[ast.Node]bool{}, depth+5)
+			}
+			w.deep.depth--
+			delete(w.deep.busy, name)
+			for k := range sub.Fields {
+				a.Fields[k] = true
+			}
+			for k := range sub.Calls {
+				a.Calls[k] = true
+			}
+			for k := range sub.Lits {
+				a.Lits[k] = true
+			}
+			for k := range sub.Idents {
+				if strings.HasPrefix(k, "global:") || strings.HasPrefix(k, "const:") {
+					a.Idents[k] = true
+				}
+			}
+			if se, ok := x.Fun.(*ast.SelectorExpr); ok && info.Selections[se] != nil {
+				w.atomsInto(fi, fd, se.X, a, seen, depth+1)
+			}
 		} else if tgt := w.inlinable(name); tgt != nil && depth < 20 {
 			// inline: atoms of the single returned expression, with params as idents
 			// then the arguments' atoms (flow through parameters is over-approximated
@@ -530,6 +563,58 @@ func (w *World) projectField(fi *FuncInfo, fd *funcDefs, x ast.Expr, field strin
 		return nil, false
 	}
 	return out, true
+}
+
+type deepState struct {
+	on    bool
+	depth int
+	busy  map[string]bool
+}
+
+// exprAtomsDeep: the atoms of e with every gleece function it calls looked through (two
+// levels): the fingerprint of a decision, independent of how its predicates are factored.
+func (w *World) exprAtomsDeep(fi *FuncInfo, e ast.Expr) *Atoms {
+	prev := w.deep
+	w.deep = deepState{on: true, busy: map[string]bool{}}
+	defer func() { w.deep = prev }()
+	return w.exprAtoms(fi, e)
+}
+
+// branchConds: the conditions a function branches on (if, for, switch tags and case values).
+func branchConds(fi *FuncInfo) []ast.Expr {
+	var out []ast.Expr
+	if fi.Decl.Body == nil {
+		return out
+	}
+	ast.Inspect(fi.Decl.Body, func(n ast.Node) bool {
+		switch x := n.(type) {
+		case *ast.IfStmt:
+			out = append(out, x.Cond)
+		case *ast.ForStmt:
+			if x.Cond != nil {
+				out = append(out, x.Cond)
+			}
+		case *ast.SwitchStmt:
+			if x.Tag != nil {
+				out = append(out, x.Tag)
+			}
+		case *ast.CaseClause:
+			for _, e := range x.List {
+				if tv, ok := fi.Pkg.TypesInfo.Types[e]; ok && tv.IsType() {
+					continue
+				}
+				out = append(out, e)
+			}
+		case *ast.TypeSwitchStmt:
+			if as, ok := x.Assign.(*ast.AssignStmt); ok && len(as.Rhs) == 1 {
+				out = append(out, as.Rhs[0])
+			} else if es, ok := x.Assign.(*ast.ExprStmt); ok {
+				out = append(out, es.X)
+			}
+		}
+		return true
+	})
+	return out
 }
 
 // atomsOfNewCall adds the atoms of what a new function returns (result idx, or all).
